@@ -870,7 +870,7 @@ func filterStdout(c *core.Ctx) (restore func()) {
 }
 
 func (d Driver) Run(c *core.Ctx) error {
-	c.Rule = "scenario = document program (call slots over path/image/text/link/newpage with fill, stroke, alpha, fill rule, image alpha and encoding, font kind, writing mode) x {compress} x {subset} x metadata profile (classes of text per Info field and Lang), generated by TLC from spec/PDFDoc.tla (exhaustive for L = 3 over the small alphabet, the metadata sweep, RandomSubset programs over the full alphabet); every scenario is executed on the real pdf writer, its bytes are parsed by the independent reader and the record is validated by Trace_PDFDoc.tla; non-trivial = at least two different kinds of call (a second page counts), or a single-call document of the metadata sweep whose title has non-ASCII / CR / parenthesis / backslash characters; distinct by (options, program, profile, infoAt)"
+	c.Rule = "scenario = document program (call slots over path/image/text/link/newpage with fill, stroke, alpha, fill rule, image alpha and encoding, font kind, writing mode) x {compress} x {subset} x metadata profile (classes of text per Info field and Lang), generated by TLC from spec/PDFDoc.tla (exhaustive up to 2 calls x 4 option sets and up to 3 calls with default options in the quick tier, up to 3 calls x 4 option sets in the thorough tier, over the small alphabet; the metadata sweep; RandomSubset programs over the full alphabet); every scenario is executed on the real pdf writer, its bytes are parsed by the independent reader and the record is validated by Trace_PDFDoc.tla; non-trivial = at least two different kinds of call (a second page counts), or a single-call document of the metadata sweep whose title has non-ASCII / CR / parenthesis / backslash characters; distinct by (options, program, profile, infoAt)"
 	c.Assumptions = []string{
 		"the independent reader (oracle/pdfread.go) implements the classic file structure of ISO 32000-1 (one xref table, no object streams); Flate/ASCII85/ASCIIHex are decoded, DCT is verified with image/jpeg, any other filter counts as 'unsupported' and is never a failure",
 		"font programs, image samples and colour values are not inspected here (C18 / C12); only the file structure, resources, operator syntax and metadata",
@@ -886,6 +886,7 @@ func (d Driver) Run(c *core.Ctx) error {
 	// 2. + 3. scenarios from TLC -> real writer -> reader -> Trace_PDFDoc
 	var nDocs, nNontrivial, nLayout, nValidated int64
 	seen := sync.Map{}
+	sem := make(chan struct{}, 4) // concurrent Trace_PDFDoc processes
 	run := func(o tlc.Opts) {
 		jobs := make(chan job, 1024)
 		outs := make(chan done, 1024)
@@ -899,7 +900,7 @@ func (d Driver) Run(c *core.Ctx) error {
 			jobs <- job{int(atomic.AddInt64(&id, 1)), &s}
 		}
 		var wgExec sync.WaitGroup
-		for w := 0; w < 12; w++ {
+		for w := 0; w < 6; w++ {
 			wgExec.Add(1)
 			go func() {
 				defer wgExec.Done()
@@ -925,7 +926,6 @@ func (d Driver) Run(c *core.Ctx) error {
 		}
 		// chunked validation, a few TLC processes at a time
 		var wgVal sync.WaitGroup
-		sem := make(chan struct{}, 4)
 		flush := func(chunk []done) {
 			if len(chunk) == 0 {
 				return
@@ -982,21 +982,31 @@ func (d Driver) Run(c *core.Ctx) error {
 		<-collectDone
 		wgVal.Wait()
 	}
-	// exhaustive: every canonical program of up to 2 calls x compress x subset; up to 3 calls with the two extreme
-	// option sets (quick) or all four (thorough)
+	// exhaustive: every canonical program of up to 2 calls x compress x subset; up to 3 calls with the default options
+	// (quick) or all four option sets (thorough); the generation runs overlap
+	var wgRuns sync.WaitGroup
+	goRun := func(o tlc.Opts) {
+		wgRuns.Add(1)
+		go func() {
+			defer wgRuns.Done()
+			o.Timeout = 40 * time.Minute // the generator is throttled by the executing workers: its wall time is the pipeline's
+			run(o)
+		}()
+	}
 	if c.Thorough() {
-		run(tlc.Opts{Module: "PDFDoc", Config: genCfg(3, "all", "small", 0, false)})
+		goRun(tlc.Opts{Module: "PDFDoc", Workers: 6, Config: genCfg(3, "all", "small", 0, false)})
 	} else {
-		run(tlc.Opts{Module: "PDFDoc", Config: genCfg(2, "all", "small", 0, false)})
-		run(tlc.Opts{Module: "PDFDoc", Config: genCfg(3, "all2", "small", 0, false)})
+		goRun(tlc.Opts{Module: "PDFDoc", Workers: 4, Config: genCfg(2, "all", "small", 0, false)})
+		goRun(tlc.Opts{Module: "PDFDoc", Workers: 4, Config: genCfg(3, "all1", "small", 0, false)})
 	}
 	// metadata sweep: classes of text x fields x Lang x SetInfo before/after drawing
-	run(tlc.Opts{Module: "PDFDoc", Config: genCfg(1, "info", "small", c.Pick(0, 1), false)}) // NRand # 0: with and without compression
+	goRun(tlc.Opts{Module: "PDFDoc", Workers: 4, Config: genCfg(1, "info", "small", c.Pick(0, 1), false)}) // NRand # 0: with and without compression
 	// random programs over the full alphabet with random metadata profiles
-	run(tlc.Opts{Module: "PDFDoc", Config: genCfg(c.Pick(8, 12), "random", "full", c.Pick(200, 3000), false), Seed: c.Seed})
+	goRun(tlc.Opts{Module: "PDFDoc", Workers: 4, Config: genCfg(c.Pick(8, 12), "random", "full", c.Pick(200, 2000), false), Seed: c.Seed})
 	if c.Thorough() {
-		run(tlc.Opts{Module: "PDFDoc", Config: genCfg(5, "random", "small", 1500, false), Seed: c.Seed + 1000})
+		goRun(tlc.Opts{Module: "PDFDoc", Workers: 4, Config: genCfg(5, "random", "small", 1000, false), Seed: c.Seed + 1000})
 	}
+	wgRuns.Wait()
 	c.Count(nDocs, nNontrivial, nValidated)
 	c.SetExtra("documents", nDocs)
 	c.SetExtra("layout_disagreements", nLayout)
